@@ -973,9 +973,10 @@ def regenerate(ctx):
         readsig.main(os.path.join(C.SRC, "util.py"), os.path.join(C.SRC, "config.py"), os.path.join(C.COQ, "gen", "ReadSignal.v"))
         return True
     except (Unsupported, SyntaxError, OSError, AttributeError, IndexError, TypeError) as e:
-        ctx.fail("translator gen/readsig.py no longer recognises util.py/config.py: %s" % e,
-                 dict(correspondence="gen/readsig.py -> coq/gen/ReadSignal.v", error=str(e)), kind="tie", no_input=True)
-        return False
+        if not C.tie_fallback(ctx, "translator gen/readsig.py no longer recognises util.py/config.py: %s" % e,
+                 dict(correspondence="gen/readsig.py -> coq/gen/ReadSignal.v", error=str(e)), kind="tie", no_input=True):
+            return False
+        return True
 
 
 REQ = ("From Coq Require Import ZArith List Bool.\nFrom Verif Require Import lib.C11_Base gen.ReadSignal C11.Model.\n"
